@@ -3,6 +3,7 @@ package parser
 
 import (
 	"slices"
+	"strconv"
 
 	c "github.com/paulsonkoly/calc/combinator"
 	"github.com/paulsonkoly/calc/lexer"
@@ -46,8 +47,20 @@ func acceptToken(str string) c.Parser {
 
 // The grammar ////////////////////////////////////////////////////////////////////////////////////////////////////////
 
-var intLit = acceptTerm(token.IntLit, "integer literal")
-var floatLit = acceptTerm(token.FloatLit, "float literal")
+// acceptLit accepts a literal token of the given kind whose text converts to a value.
+//
+// A literal the host cannot represent (out of range) is a syntax error, not a crash in the
+// token wrapper.
+func acceptLit(tokType token.Kind, msg string, converts func(string) bool) c.Parser {
+	tokenWrap := tokenWrapper{}
+	return c.Accept(func(tok c.Token) bool {
+		ctok := tok.(token.Type)
+		return ctok.Type == tokType && converts(ctok.Value)
+	}, msg, tokenWrap)
+}
+
+var intLit = acceptLit(token.IntLit, "integer literal", func(s string) bool { _, err := strconv.Atoi(s); return err == nil })
+var floatLit = acceptLit(token.FloatLit, "float literal", func(s string) bool { _, err := strconv.ParseFloat(s, 64); return err == nil })
 var stringLit = acceptTerm(token.StringLit, "string literal")
 
 func varName(input c.RollbackLexer) ([]c.Node, *Error) {
